@@ -341,8 +341,10 @@ def run_case(case: dict, ctx: Ctx) -> None:
     # ---- second life of the same objects: the mesh is re-coordinated in place by an affine stretch of any size - down to one that
     # barely moves the nodes - and the same simulation solves the patch test of the stretched part (every cached geometric factor
     # has to follow; an affine image of the mesh is still a mesh on which the linear field is exact)
-    if rng.random() < 0.6:
+    curved = mc == "curved"  # curved elements keep position-dependent factors: each of them is re-coordinated, the three sizes in turn
+    if (rng.random() < 0.6) | curved:
         mag = float(rng.choice([3e-6, 1e-3, 0.2]))
+        mag = [3e-6, 1e-3, 0.2][case["index"] % 3] if curved else mag
         A = np.eye(3)
         A[:dim, :dim] += mag * rng.uniform(-1, 1, (dim, dim))
         X2 = X @ A.T
